@@ -1,4 +1,5 @@
 # Copyright (C) 2007-2023 Andrea Francia Trivolzio(PV) Italy
+import os
 from abc import abstractmethod, ABCMeta
 
 import six
@@ -33,6 +34,39 @@ class TrashDirectoriesImpl(TrashDirectories):
                         ):
         return self.trash_directories2.trash_directories_or_user(
             trash_dir_from_cli)
+
+
+class SecureTrashDirectories(TrashDirectories):
+    """
+    Skips $topdir/.Trash/$uid when $topdir/.Trash does not pass the checks
+    the spec mandates (it must be a sticky directory and not a symlink), as
+    trash-put, trash-list, trash-empty and trash-rm already do.
+    """
+
+    def __init__(self,
+                 trash_directories,  # type: TrashDirectories
+                 top_trash_dir_rules,
+                 uid,  # type: int
+                 ):
+        self.trash_directories = trash_directories
+        self.top_trash_dir_rules = top_trash_dir_rules
+        self.uid = uid
+
+    def list_trash_dirs(self,
+                        trash_dir_from_cli,  # type: Optional[str]
+                        ):
+        from trashcli.trash_dirs_scanner import (
+            top_trash_dir_invalid_because_not_sticky,
+            top_trash_dir_invalid_because_parent_is_symlink)
+        for path, volume in self.trash_directories.list_trash_dirs(
+                trash_dir_from_cli):
+            if (not trash_dir_from_cli and
+                    path == os.path.join(volume, '.Trash/%s' % self.uid) and
+                    self.top_trash_dir_rules.valid_to_be_read(path) in (
+                            top_trash_dir_invalid_because_not_sticky,
+                            top_trash_dir_invalid_because_parent_is_symlink)):
+                continue
+            yield path, volume
 
 
 class TrashDirectories2:
